@@ -1240,6 +1240,87 @@ def check_version_taint(ck, R):
 
 
 # --------------------------------------------------------------------------------- C03
+# types whose repr() is a function of the value alone (no hash-ordered iteration, no address)
+CANONICAL_TEXT_TYPES = {"bool", "int", "float", "complex", "str", "bytes", "bytearray", "range", "type(None)", "NoneType",
+                        "Decimal", "decimal.Decimal", "Fraction", "fractions.Fraction", "datetime.date", "datetime.datetime", "datetime.time",
+                        "datetime.timedelta", "date", "datetime", "time", "timedelta"}
+NAME_ATTRS = {"__name__", "__qualname__", "__module__", "qualified_name_without_version", "qualified_name"}
+_TEXT_CALLS = {"repr", "str", "ascii", "format", "join", "hex", "hexdigest", "decode", "len", "chr", "oct", "bin"}
+
+
+def _rendered_operands(fa):
+    """(rendering node, operand) for every place where a value is turned into text by ITS OWN rendering: repr(x), str(x),
+    ascii(x), format(x), '...'.format(x, k=y), f'{x}', '...' % (x, y)."""
+    out = []
+    for n in A.walk_body(fa.node):
+        if isinstance(n, ast.Call) and isinstance(n.func, ast.Name) and n.func.id in ("repr", "str", "ascii", "format") and n.args:
+            out.append((n, n.args[0]))
+        elif isinstance(n, ast.Call) and isinstance(n.func, ast.Attribute) and n.func.attr in ("format", "format_map") \
+                and (A.str_parts(n.func.value) is not None or isinstance(n.func.value, ast.Name)):
+            out += [(n, a.value if isinstance(a, ast.Starred) else a) for a in n.args] + [(n, k.value) for k in n.keywords]
+        elif isinstance(n, ast.JoinedStr):
+            out += [(n, v.value) for v in n.values if isinstance(v, ast.FormattedValue)]
+        elif isinstance(n, ast.BinOp) and isinstance(n.op, ast.Mod) and (isinstance(n.left, ast.JoinedStr) or A.const_str(n.left) is not None):
+            out += [(n, x) for x in (n.right.elts if isinstance(n.right, ast.Tuple) else [n.right])]
+    return out
+
+
+def _bound_in_expression(fa, e):
+    """Does `e` mention a variable bound by a comprehension / lambda around it (no branch test can speak about it)?"""
+    names = {x.id for x in ast.walk(e) if isinstance(x, ast.Name)}
+    cur = fa.pm.get(e)
+    while cur is not None and not isinstance(cur, ast.stmt):
+        if isinstance(cur, (ast.ListComp, ast.SetComp, ast.GeneratorExp, ast.DictComp)):
+            for g in cur.generators:
+                if names & {x.id for x in ast.walk(g.target) if isinstance(x, ast.Name)}:
+                    return True
+        if isinstance(cur, ast.Lambda) and names & {a.arg for a in cur.args.args + cur.args.kwonlyargs}:
+            return True
+        cur = fa.pm.get(cur)
+    return False
+
+
+def _text_is_canonical(fa, e, at, renderers, depth=5):
+    """Is the text of `e` canonical by construction: a constant, a name-like attribute, the result of one of the
+    renderers / of a text-producing call (judged at its own site), or built from such?"""
+    if isinstance(e, ast.Constant) or isinstance(e, ast.JoinedStr):
+        return True
+    if isinstance(e, ast.Attribute):
+        return e.attr in NAME_ATTRS
+    if isinstance(e, ast.Call):
+        nm = A.call_attr(e)
+        return nm in renderers or nm in _TEXT_CALLS
+    if isinstance(e, ast.IfExp):
+        return _text_is_canonical(fa, e.body, at, renderers, depth) and _text_is_canonical(fa, e.orelse, at, renderers, depth)
+    if isinstance(e, ast.BinOp) and isinstance(e.op, (ast.Add, ast.Mod)):
+        return A.str_parts(e) is not None or (_text_is_canonical(fa, e.left, at, renderers, depth) and _text_is_canonical(fa, e.right, at, renderers, depth))
+    if isinstance(e, ast.Name) and depth > 0 and not _bound_in_expression(fa, e):
+        alts_ = _alternatives(fa, e, at)
+        if all(not (isinstance(x, ast.Name) and x.id == e.id) for (x, _a) in alts_):
+            return all(_text_is_canonical(fa, x, a_, renderers, depth - 1) for (x, a_) in alts_)
+    return False
+
+
+def _scalar_type_literal(text, subject):
+    """Does the (positive) literal say that `subject` is None / Ellipsis / of a type with canonical text?"""
+    e = _parse_lit(text) if isinstance(text, str) else text
+    if e is None:
+        return False
+    if isinstance(e, ast.BoolOp):
+        # a disjunction taken true stays one literal: every alternative must say so; of a conjunction, one part
+        return (all if isinstance(e.op, ast.Or) else any)(_scalar_type_literal(v, subject) for v in e.values)
+    if isinstance(e, ast.Compare) and len(e.ops) == 1 and isinstance(e.ops[0], ast.Is) and A.norm(e.left) == subject:
+        c = e.comparators[0]
+        return (isinstance(c, ast.Constant) and (c.value is None or c.value is Ellipsis)) or A.norm(c) == "Ellipsis"
+    it = A.isinstance_types(e)
+    if it and it[0] == subject:
+        return set(it[1]) <= CANONICAL_TEXT_TYPES
+    if isinstance(e, ast.Compare) and len(e.ops) == 1 and isinstance(e.ops[0], (ast.Is, ast.Eq, ast.In)) and A.norm(e.left) == "type(%s)" % subject:
+        c = e.comparators[0]
+        return set(A.norm(x) for x in (c.elts if isinstance(c, (ast.Tuple, ast.List, ast.Set)) else [c])) <= CANONICAL_TEXT_TYPES
+    return False
+
+
 def _stable_repr_function(ck, name):
     """A module-level function of code_hash that sorts set elements (canonical repr)."""
     m = ck.repo.module(CH)
@@ -1366,6 +1447,30 @@ def check_determinism_taint(ck, R):
                       "rendered for whichever was seen first, so a function's version depends on what else was hashed before it in that process"
                       % (fi.qual, A.short(dn, 50)), A.loc(fi, fi.node))
     ck.ob(R, CH + "::renderer-not-memoised::scan", True, "%d equality-keyed caches among the renderers of hashed text (%s)" % (n_cached, sorted(closure)), "")
+    # inside those renderers an object's OWN text (repr / str / format of the object itself) is used only where a type
+    # test on the path has established a type whose text is canonical; anything else goes through the renderer
+    # recursively or is described by names
+    n_sites = 0
+    for fi in [f_ for f_ in ck.repo.module(CH).all_funcs() if f_.parent is None and f_.cls is None and f_.name in closure - {"fn_code_hash"}]:
+        fr = FA(ck, fi)
+        for (site, operand) in _rendered_operands(fr):
+            st = fr.stmt_of(site)
+            if st is None or not fr.nodes(st):
+                continue
+            at = fr.nodes(st)[0]
+            if _text_is_canonical(fr, operand, at, closure):
+                continue
+            n_sites += 1
+            subject = fr.xnorm(operand, at) if not _bound_in_expression(fr, operand) else None
+            conds = fr.conditions(st) if subject is not None else None
+            okg = conds is not None and bool(conds) and all(any(pol and _scalar_type_literal(txt, subject) for (txt, pol) in conj) for conj in conds)
+            ck.ob(R, fr.key(st, "own-text-only-of-scalars:" + A.norm(operand)[:30]), okg,
+                  "`%s` is rendered with its own text only where it is known to be a scalar" % A.short(operand, 30) if okg else
+                  "`%s` puts the object's own text (`%s`) into the hashed rendering without a type test that makes that text canonical: the repr / str of an "
+                  "arbitrary object (a dataclass or namedtuple holding a set, an object with the default repr) prints in hash-seed order or with a "
+                  "memory address, so the code hash of a function with such a constant or default differs between processes"
+                  % (A.short(site, 50), A.short(operand, 30)), fr.where(site))
+    ck.ob(R, CH + "::own-text-only-of-scalars::scan", True, "%d renderings of an object's own text in the renderers of hashed text" % n_sites, "")
     # dict-valued dumps
     sv = FA(ck, CH + ".GlobalVariableHashRule._serialize_value")
     for c in sv.calls("dumps"):
@@ -1917,12 +2022,73 @@ def check_every_symbol_watched(ck, R):
           "(path %s)" % v.cfg.describe_path(p), v.where())
 
 
+def _closures_denoted(fa, expr, at, depth=6, _via=()):
+    """The nested functions / lambdas of `fa`'s function that `expr` (evaluated at CFG node `at`) may denote, followed through
+    local aliases and conditional expressions: a list of (closure AST, CFG node where it is created, nodes of the aliasing
+    assignments it came through)."""
+    if depth <= 0 or expr is None:
+        return []
+    if isinstance(expr, ast.Lambda):
+        return [(expr, at, _via)]
+    if isinstance(expr, ast.IfExp):
+        return _closures_denoted(fa, expr.body, at, depth - 1, _via) + _closures_denoted(fa, expr.orelse, at, depth - 1, _via)
+    if isinstance(expr, ast.BoolOp):
+        return [c for v in expr.values for c in _closures_denoted(fa, v, at, depth - 1, _via)]
+    if isinstance(expr, ast.Name):
+        out = []
+        for d in fa.df.reaching(at, expr.id):
+            if d.kind == "def" and isinstance(d.stmt, (ast.FunctionDef, ast.AsyncFunctionDef)):
+                out.append((d.stmt, d.node, _via))
+            elif d.kind == "assign" and d.value is not None:
+                out += _closures_denoted(fa, d.value, d.node, depth - 1, _via + (d.node,))
+        return out
+    return []
+
+
+def _closure_reads(fa, closure, _seen=None):
+    """Names of the enclosing function's scope that the closure reads when it is CALLED (default values are evaluated when
+    it is made and are not among them), including what the sibling nested functions it calls read."""
+    seen = _seen if _seen is not None else set()
+    if id(closure) in seen:
+        return set()
+    seen.add(id(closure))
+    a_ = closure.args
+    own = {x.arg for x in a_.posonlyargs + a_.args + a_.kwonlyargs} | ({a_.vararg.arg} if a_.vararg else set()) | ({a_.kwarg.arg} if a_.kwarg else set())
+    body = closure.body if isinstance(closure.body, list) else [closure.body]
+    loads = set()
+    for b_ in body:
+        for n in ast.walk(b_):
+            if isinstance(n, ast.Name):
+                if isinstance(n.ctx, ast.Load):
+                    loads.add(n.id)
+                else:
+                    own.add(n.id)
+            elif isinstance(n, (ast.FunctionDef, ast.AsyncFunctionDef)):
+                own.add(n.name)
+            elif isinstance(n, ast.arg):
+                own.add(n.arg)
+    free = {x for x in loads - own if fa.df.is_local(x)}
+    for x in list(free):
+        sib = fa.fi.nested.get(x)
+        if sib is not None and sib.node is not closure:
+            free |= _closure_reads(fa, sib.node, seen)
+    return free
+
+
 def check_resolver_closures(ck, R):
-    ck.rule(R, "resolvers re-resolve from the root: a function passed as a rule's resolver closes over the global table "
-               "and name parts only, never over an object obtained by evaluating the dotted chain", 2)
+    ck.rule(R, "resolvers re-resolve from the root: a function handed out as a rule's resolver closes over the global table "
+               "and name parts only, never over an object obtained by evaluating the dotted chain, and over nothing that is "
+               "re-bound after it was handed out", 2)
     n_res = 0
     for v in _visit_unit(ck):
-        # names derived from evaluation: assigned from a resolver()/getattr()/subscript of the global table, or from `ref`
+        # the closures that are handed out: nested functions / lambdas passed as an argument of some call of the visit
+        handed = {}  # id(closure) -> (closure, creation node, [(use call, use node, alias nodes)])
+        for c in v.calls():
+            for un in v.nodes(c):
+                for arg in list(c.args) + [k.value for k in c.keywords]:
+                    for (cl, dn, via) in _closures_denoted(v, arg.value if isinstance(arg, ast.Starred) else arg, un):
+                        handed.setdefault(id(cl), (cl, dn, []))[2].append((c, un, via, arg))
+        # names derived from evaluation: assigned from a call of such a closure, a getattr() or a subscript of the global table
         derived = set()
         changed = True
         assigns = [(s, t.id) for s in v.stmts(ast.Assign) for t in s.targets if isinstance(t, ast.Name)]
@@ -1936,53 +2102,98 @@ def check_resolver_closures(ck, R):
                 for n in ast.walk(val):
                     if isinstance(n, ast.Call) and (A.call_attr(n) in ("getattr",) or (isinstance(n.func, ast.Name) and n.func.id.startswith("resolver")) or A.call_attr(n) == "memento_fn_resolver"):
                         is_eval = True
-                    if isinstance(n, ast.Subscript) and A.norm(n.value) == "global_table":
+                    if isinstance(n, ast.Call) and isinstance(n.func, ast.Name) and v.nodes(s) and any(id(cl) in handed for (cl, _d, _v) in _closures_denoted(v, n.func, v.nodes(s)[0])):
+                        is_eval = True
+                    if isinstance(n, ast.Subscript) and (A.norm(n.value) == "global_table" or (v.nodes(s) and v.xnorm(n.value, v.nodes(s)[0]).endswith(".__globals__"))):
                         is_eval = True
                     if isinstance(n, ast.Name) and n.id in derived:
                         is_eval = True
                 if is_eval:
                     derived.add(name)
                     changed = True
-        for name, sub in v.fi.nested.items():
-            if not name.startswith("resolver"):
-                continue
-        # all nested defs named like resolvers (there can be several with the same name: walk the AST)
-        for node in ast.walk(v.node):
-            if isinstance(node, ast.FunctionDef) and node is not v.node and "resolver" in node.name and node.name != "resolve_symbol":
-                n_res += 1
-                params = {a.arg for a in node.args.args + node.args.kwonlyargs}
-                local = set(params)
-                for s in ast.walk(node):
-                    if isinstance(s, ast.Assign):
-                        for t in s.targets:
-                            if isinstance(t, ast.Name):
-                                local.add(t.id)
-                    if isinstance(s, (ast.For, ast.comprehension)) and isinstance(s.target, ast.Name):
-                        local.add(s.target.id)
-                free = {n.id for b in node.body for n in ast.walk(b) if isinstance(n, ast.Name) and isinstance(n.ctx, ast.Load)} - local
-                bad = sorted(free & derived)
-                ck.ob(R, "%s::def %s@%s" % (v.qual, node.name, "loop" if v.enclosing(node, ast.For) is not None else "top"), not bad,
-                      "resolver re-resolves from the global table" if not bad else
-                      "resolver closes over %s, an object obtained while evaluating the chain: when an intermediate object is replaced "
-                      "(class re-executed, module attribute rebound) the rule keeps looking at the old object and did_change never fires" % bad,
-                      A.loc(v.fi, node))
+        defs_of = {}
+        for nid, ds in v.df.gen.items():
+            for d in ds:
+                defs_of.setdefault(d.name, set()).add(nid)
+        live = v.cfg.reachable_nodes()
+        for (node, dn, uses) in sorted(handed.values(), key=lambda h: getattr(h[0], "lineno", 0)):
+            n_res += 1
+            is_def = not isinstance(node, ast.Lambda)
+            label = "def %s@%s" % (node.name, "loop" if v.enclosing(node, ast.For) is not None else "top") if is_def else "lambda %s" % A.short(node.body, 40)
+            free = _closure_reads(v, node)
+            bad = sorted(free & derived)
+            ck.ob(R, "%s::%s" % (v.qual, label), not bad,
+                  "resolver re-resolves from the global table" if not bad else
+                  "resolver closes over %s, an object obtained while evaluating the chain: when an intermediate object is replaced "
+                  "(class re-executed, module attribute rebound) the rule keeps looking at the old object and did_change never fires" % bad,
+                  A.loc(v.fi, node))
+            # late binding: a closure reads its free variables when it is CALLED (by did_change, long after this function
+            # returned).  So none of them may be re-bound (a) between the making of the closure and a place where it is
+            # handed out, nor (b) after it was handed out, unless on a path where the receiver gave nothing back (`is None`)
+            late = None
+            for x in sorted(free):
+                xs = (defs_of.get(x, set()) & live)
+                if not xs:
+                    continue
+                for (c, un, via, arg) in uses:
+                    if late is not None:
+                        break
+                    arg_names = {a_.id for a_ in ast.walk(arg) if isinstance(a_, ast.Name)}
+                    killers = {dn} | {nid for nm_ in arg_names | ({node.name} if is_def else set()) for nid in defs_of.get(nm_, set())} - set(via)
+                    if is_def or via:
+                        after_make = v.cfg.reach([dn], removed=killers - set(via), include_start=False)
+                        for X in xs & after_make:
+                            if un in v.cfg.reach([X], removed=killers - {X}, include_start=True) and X not in via:
+                                late = (x, X, c, "between the making of the closure and `%s`" % A.short(c, 50))
+                                break
+                    if late is not None:
+                        break
+                    # (b) after the hand-over
+                    st = v.stmt_of(c)
+                    none_edges = set()
+                    if isinstance(st, ast.Assign) and len(st.targets) == 1 and isinstance(st.targets[0], ast.Name):
+                        r_ = st.targets[0].id
+                        for t in v.cfg.nodes:
+                            if t.kind == "test" and isinstance(t.ast, ast.Compare) and len(t.ast.ops) == 1 and isinstance(t.ast.ops[0], (ast.Is, ast.IsNot)) \
+                                    and A.is_none(t.ast.comparators[0]) and isinstance(t.ast.left, ast.Name) and t.ast.left.id == r_ \
+                                    and {d.node for d in v.df.reaching(t.id, r_)} == {un}:
+                                none_edges.add((t.id, "T" if isinstance(t.ast.ops[0], ast.Is) else "F"))
+                    after_use = v.cfg.reach([un], edge_ok=lambda s_, d_, l_: (s_, l_) not in none_edges, include_start=False)
+                    for X in xs & after_use:
+                        late = (x, X, c, "after the closure was handed to `%s`" % A.short(c, 50))
+                        break
+            ck.ob(R, "%s::%s::bound-when-made" % (v.qual, label), late is None,
+                  "what the resolver reads from the enclosing scope is never re-bound once it is made" if late is None else
+                  "the resolver reads `%s` from the enclosing scope when it is called, and `%s` is re-bound (%s) %s: the rule that keeps this resolver "
+                  "walks the path of a LATER step (late binding), e.g. an undefined-symbol rule asks the wrong object whether the attribute appeared, "
+                  "so a later definition of the symbol never changes the version"
+                  % (late[0], late[0], A.loc(v.fi, v.cfg.node(late[1]).ast).split(":")[-1] if v.cfg.node(late[1]).ast is not None else "?", late[3]) if late else "",
+                  A.loc(v.fi, node))
         # a resolver tells "the name is gone" apart from "the name is bound to None": None is a legal tracked value, so a
         # resolver that answers None for a missing name makes the deletion of a None-valued variable invisible
-        for node in ast.walk(v.node):
-            if isinstance(node, ast.FunctionDef) and node is not v.node and "resolver" in node.name and node.name not in ("resolve_symbol", "memento_fn_resolver"):
-                nones = []
-                for x in ast.walk(node):
-                    if isinstance(x, ast.IfExp) and A.is_none(x.orelse) and isinstance(x.test, ast.Compare) and isinstance(x.test.ops[0], ast.In):
-                        nones.append(x)
-                    if isinstance(x, ast.Call) and A.call_attr(x) == "getattr" and len(x.args) == 3 and A.is_none(x.args[2]):
-                        nones.append(x)
-                    if isinstance(x, ast.Call) and A.call_attr(x) == "get" and "global_table" in A.norm(A.call_recv(x)) and (len(x.args) == 1 or A.is_none(x.args[1])):
-                        nones.append(x)
-                ck.ob(R, "%s::def %s@%s::missing-is-not-none" % (v.qual, node.name, "loop" if v.enclosing(node, ast.For) is not None else "top"), not nones,
-                      "a missing name resolves to a sentinel of its own" if not nones else
-                      "`%s`: the resolver answers None for a name that no longer exists, the same as for a name bound to None: deleting a tracked variable "
-                      "whose value is None leaves the cached version in place although a fresh computation sees an undefined symbol" % (A.short(nones[0], 60) if nones else ""),
-                      A.loc(v.fi, nones[0] if nones else node))
+        bodies = {}
+        for (node, dn, uses) in handed.values():
+            if isinstance(node, ast.Lambda):
+                continue
+            bodies[id(node)] = node
+            for x in _closure_reads(v, node):
+                sib = v.fi.nested.get(x)
+                if sib is not None:
+                    bodies.setdefault(id(sib.node), sib.node)
+        for node in sorted(bodies.values(), key=lambda n_: n_.lineno):
+            nones = []
+            for x in ast.walk(node):
+                if isinstance(x, ast.IfExp) and A.is_none(x.orelse) and isinstance(x.test, ast.Compare) and isinstance(x.test.ops[0], ast.In):
+                    nones.append(x)
+                if isinstance(x, ast.Call) and A.call_attr(x) == "getattr" and len(x.args) == 3 and A.is_none(x.args[2]):
+                    nones.append(x)
+                if isinstance(x, ast.Call) and A.call_attr(x) == "get" and "global_table" in A.norm(A.call_recv(x)) and (len(x.args) == 1 or A.is_none(x.args[1])):
+                    nones.append(x)
+            ck.ob(R, "%s::def %s@%s::missing-is-not-none" % (v.qual, node.name, "loop" if v.enclosing(node, ast.For) is not None else "top"), not nones,
+                  "a missing name resolves to a sentinel of its own" if not nones else
+                  "`%s`: the resolver answers None for a name that no longer exists, the same as for a name bound to None: deleting a tracked variable "
+                  "whose value is None leaves the cached version in place although a fresh computation sees an undefined symbol" % (A.short(nones[0], 60) if nones else ""),
+                  A.loc(v.fi, nones[0] if nones else node))
         # rules that watch for a symbol to appear must also look it up from the root each time
         for c in v.calls("UndefinedSymbolHashRule"):
             base = c.args[0] if c.args else A.kwarg(c, "ref")
